@@ -1,5 +1,6 @@
 //! Correspondence harness: drives the real crustabri (built from /repo's working tree) on generated
 //! inputs and prints everything observable to a `.cases` file for comparison with the Coq model.
+mod cli;
 mod common;
 mod encoders;
 mod equiv;
@@ -73,6 +74,7 @@ fn main() {
         "dimacs" => satobj::run_dimacs(&mut rng, count, thorough, &extra, &mut out),
         "reply" => satobj::run_reply(&mut rng, count, thorough, &extra, &mut out),
         "pipe" => satobj::run_pipe(&mut rng, count, thorough, &extra, &mut out),
+        "cli" => cli::run(&mut rng, count, thorough, &extra, outp.as_deref(), &mut out),
         "static-multi" => statics::run(&mut rng, count, thorough, &statics::Cfg::from_extra(&extra, 3), &mut out),
         _ => {
             eprintln!("unknown mode {}", mode);
